@@ -23,8 +23,13 @@ B. GeneralSFTPFile on top of it ("sftpfile/..." roots): a handle opened FXF_READ
    writeChunk / setAttrs({size}) / readChunk / close.  The parent directory / mutable node are stubs
    that read, through the uploadable's own interface, exactly what add_file / overwrite would upload.
    "sequential": the client waits for the answer to a read before its next request.  "pipelined": the
-   client may send writes/truncates while a read is unanswered (legal in SFTP, which requires requests
-   on one file to be processed in order); verdicts about such reads carry the prefix "pipelined:".
+   client may send writes/truncates while a read is unanswered.  The statement fixes no linearisation
+   point for such an overtaken read (and OverwriteableFileConsumer.read's contract forbids overwrites
+   until its Deferred fires), so its answer is accepted if it equals the reference after SOME prefix
+   of the client events issued while it was unanswered (an error answer: if some prefix makes the
+   range empty or shorter); accepted answers that differ from the issue-time reference are counted
+   (coverage key pipelined_overtakes_counted).  Bytes matching NO linearisation point are a violation
+   ("pipelined:...-no-linearisation").
 
 Roots   quick:    consumer/L4/K3w, consumer/L6/K2+fail+cr, sftpfile/immutable/sequential/K2+fail+cr,
                   sftpfile/mutable/sequential/K2+cr, sftpfile/immutable/pipelined/K2+cr
@@ -66,6 +71,7 @@ ASSUMPTIONS = [
     "bound = number of client events per history (root name: K2/K3/K4); any number of download events; every chunking into pieces of 1, 2, 3 or 'all the rest'; roots marked w explore reads only through the per-state probe",
     "temp file = in-memory object honouring the documented EncryptedTemporaryFile contract, holes poisoned (0xFE) instead of keystream garbage; 0xFE is not used as data",
     "consumer layer: the documented caller contract of read() is respected (no overwrite/truncate while a read is outstanding); the pipelining client is explored only at the GeneralSFTPFile layer with 2 client events",
+    "a read overtaken by later client writes/truncates has no fixed linearisation point: any answer equal to the reference after some prefix of those events is accepted and counted (pipelined_overtakes_counted); an error answer is accepted if some prefix empties or shortens its range",
     "the per-state probe issues each menu read on the state's own objects and removes the probe's milestone again (the objects are discarded afterwards), so probes do not interact",
     "sftpd.noisy (a module-level debug switch that only guards log calls) is set to False for speed",
     "states merged on (all consumer fields, temp-file cells incl. holes, outstanding reads and what they must return, download position/status, reference bytes, client events used, queued pre-open requests): everything the code or the oracle reads later; compared by 128-bit digest",
@@ -153,6 +159,14 @@ class Boom(Exception):
     pass
 
 
+HEAP_TIE = "concurrent-reads-milestone-heap-tie"
+
+
+def is_heap_tie(e):
+    """heapq comparing (index, Deferred) tuples with equal index: one defect, many call sites"""
+    return isinstance(e, TypeError) and "Deferred" in str(e) and "not supported between" in str(e)
+
+
 def diff_kind(got, want, orig):
     """classify a wrong byte string against the reference"""
     if len(got) != len(want):
@@ -193,13 +207,14 @@ class Ref(object):
 
 # ------------------------------------------------------------------ read records
 class Rd(object):
-    __slots__ = ("off", "n", "want", "state", "value", "stale", "judged")
+    __slots__ = ("off", "n", "want", "state", "value", "stale", "judged", "alts")
 
     def __init__(self, off, n, want):
         self.off, self.n, self.want = off, n, want
         self.state = "pending"      # pending / ok / err
         self.value = None
         self.stale = False          # (pipelining client only) a later write/truncate was issued while unanswered
+        self.alts = []              # reference answers after each client write/truncate issued while unanswered
         self.judged = False
 
     def attach(self, d):
@@ -227,6 +242,7 @@ class ConsumerWorld(object):
         self.closed = False
         self.reads = []
         self.njudged = 0
+        self.novertakes = 0
         self.done_checked = False
         self.setup()
 
@@ -258,7 +274,8 @@ class ConsumerWorld(object):
         try:
             return f(*a)
         except Exception as e:  # noqa
-            self.bad("exception:%s:%s" % (what, type(e).__name__), "%s%r raised %r" % (what, a if what != "write" else (len(a[0]),), e))
+            sig = HEAP_TIE if is_heap_tie(e) else "exception:%s:%s" % (what, type(e).__name__)
+            self.bad(sig, "%s%r raised %r" % (what, a if what != "write" else (len(a[0]),), e))
             return None
 
     def the_consumer(self):
@@ -275,7 +292,7 @@ class ConsumerWorld(object):
         try:
             d = self.start_read(off, n)
         except Exception as e:  # noqa
-            self.bad("exception:read:%s" % type(e).__name__, "read(%d,%d) raised %r" % (off, n, e))
+            self.bad(HEAP_TIE if is_heap_tie(e) else "exception:read:%s" % type(e).__name__, "read(%d,%d) raised %r" % (off, n, e))
             return None
         rec.attach(d)
         if pump:
@@ -287,10 +304,9 @@ class ConsumerWorld(object):
             return
         rec.judged = True
         self.njudged += 1
-        prefix = "pipelined:" if rec.stale else ""
-        what = "read(%d,%d)" % (rec.off, rec.n)
         if rec.stale:
-            what += " [issued before a later write/truncate, answered after it]"
+            return self.judge_overtaken_read(rec)
+        what = "read(%d,%d)" % (rec.off, rec.n)
         want, val = rec.want, rec.value
         if rec.state == "err":
             if want is None and self.is_eof_error(val):
@@ -299,19 +315,54 @@ class ConsumerWorld(object):
                 return           # download failed: the statement does not apply, a failing read is fine
             detail = getattr(val.value, "message", None) or val.value
             if want is None:
-                self.bad(prefix + "read-at-eof-wrong-error", "%s at/after EOF (size %d) failed with %r instead of the EOF error" % (what, len(self.ref.data), detail))
+                self.bad("read-at-eof-wrong-error", "%s at/after EOF (size %d) failed with %r instead of the EOF error" % (what, len(self.ref.data), detail))
             else:
-                self.bad(prefix + "read-fails:%s" % type(val.value).__name__, "%s failed with %r although the download did not fail; expected %r" % (what, detail, want))
+                self.bad("read-fails:%s" % type(val.value).__name__, "%s failed with %r although the download did not fail; expected %r" % (what, detail, want))
             return
         if want is None:
-            self.bad(prefix + "read-past-eof-returns-data", "%s returned %r, reference size is %d (EOF expected)" % (what, val, len(self.ref.data)))
+            self.bad("read-past-eof-returns-data", "%s returned %r, reference size is %d (EOF expected)" % (what, val, len(self.ref.data)))
         elif val != want:
-            self.bad(prefix + "read:" + diff_kind(val, want, self.orig), "%s returned %r, reference %r" % (what, val, want))
+            self.bad("read:" + diff_kind(val, want, self.orig), "%s returned %r, reference %r" % (what, val, want))
+
+    def judge_overtaken_read(self, rec):
+        """A read that was still unanswered when the client issued later writes/truncates: the statement fixes
+        no linearisation point for it (and the consumer's read() contract forbids such overwrites), so every
+        answer that equals the reference after SOME prefix of those later events is accepted and only counted.
+        An error answer is accepted when some prefix makes the range empty or shorter (EOF / rejected overlap).
+        Bytes that match NO linearisation point are still a violation."""
+        cands = [rec.want] + rec.alts
+        what = "read(%d,%d) [unanswered while %d later write/truncate event(s) were issued]" % (rec.off, rec.n, len(rec.alts))
+        val = rec.value
+        if rec.state == "err":
+            if self.dl == "failed":
+                return
+            longest = max(len(c) for c in cands if c is not None) if any(c is not None for c in cands) else 0
+            shrunk = any(c is None or len(c) < longest for c in cands)
+            if shrunk:
+                self.novertakes += 1
+                return
+            detail = getattr(val.value, "message", None) or val.value
+            self.bad("pipelined:read-fails:%s" % type(val.value).__name__,
+                     "%s failed with %r although no linearisation point makes its range empty or shorter; candidates %r" % (what, detail, cands))
+            return
+        if val in [c for c in cands if c is not None]:
+            if val != rec.want:
+                self.novertakes += 1
+            return
+        ref = next((c for c in cands if c is not None), b"")
+        self.bad("pipelined:read:" + diff_kind(val, ref, self.orig) + "-no-linearisation",
+                 "%s returned %r, which equals the reference at NO point between its issue and its answer; candidates in order: %r" % (what, val, cands))
 
     def mark_stale(self):
         for r in self.reads:
             if r.state == "pending":
                 r.stale = True
+
+    def note_alternatives(self):
+        # called right after the reference absorbed a client write/truncate
+        for r in self.reads:
+            if r.state == "pending":
+                r.alts.append(self.ref.read(r.off, r.n))
 
     # -------- events
     def apply(self, ev):
@@ -340,11 +391,13 @@ class ConsumerWorld(object):
         data = client_bytes(self.nclient - 1, n)
         self.mark_stale()
         self.ref.overwrite(off, data)
+        self.note_alternatives()
         self.guarded("overwrite", self.c.overwrite, off, data)
 
     def ev_size(self, m):
         self.mark_stale()
         self.ref.set_size(m)
+        self.note_alternatives()
         self.guarded("set_current_size", self.c.set_current_size, m)
 
     def ev_rd(self, off, n):
@@ -390,7 +443,7 @@ class ConsumerWorld(object):
 
     def canon(self):
         return (self.layer, self.L, self.cons_canon(self.the_consumer()), self.dlpos, self.dl, self.nclient, bytes(self.ref.data), self.closed,
-                tuple(sorted((r.off, r.n, r.want, r.stale) for r in self.pending()))) + self.extra_canon()
+                tuple(sorted((r.off, r.n, r.want, r.stale, tuple(r.alts)) for r in self.pending()))) + self.extra_canon()
 
     def extra_canon(self):
         return ()
@@ -603,11 +656,13 @@ class SftpWorld(ConsumerWorld):
         data = client_bytes(self.nclient - 1, n)
         self.mark_stale()
         self.ref.overwrite(off, data)
+        self.note_alternatives()
         self.call_client("writeChunk", self.h.writeChunk, off, data)
 
     def ev_size(self, m):
         self.mark_stale()
         self.ref.set_size(m)
+        self.note_alternatives()
         self.call_client("setAttrs", self.h.setAttrs, {"size": m})
 
     def ev_close(self):
@@ -640,7 +695,7 @@ class SftpWorld(ConsumerWorld):
         if pend and self.dl == "finished":
             why = self.stuck()
             pre = "pipelined:" if pend[0].stale else ""
-            self.bad(pre + "read-never-answered" + (":" + type(why.value).__name__ if why else ""),
+            self.bad(HEAP_TIE if (why and is_heap_tie(why.value)) else pre + "read-never-answered" + (":" + type(why.value).__name__ if why else ""),
                      "download finished but readChunk(%d,%d) is still unanswered%s" % (
                          pend[0].off, pend[0].n, "; the handle's request queue holds the failure %r" % (why.value,) if why else ""))
         if self.closed and self.dl == "finished" and not self.close_result:
@@ -698,6 +753,8 @@ def _replay(hist):
     w, canon, ops = build_and_run(hist)
     digest = hashlib.blake2b(repr((hist[0]["name"], canon)).encode("utf-8", "backslashreplace"), digest_size=16).digest()
     counts = {"reads_compared": w.njudged}
+    if w.novertakes:
+        counts["pipelined_overtakes_counted"] = w.novertakes
     if getattr(w, "uploads", None):
         counts["uploads_compared"] = 1
     if w.done_checked:
@@ -775,6 +832,7 @@ def _run(tier, seed):
         "reads_compared": res.counts.get("reads_compared", 0),
         "final_contents_compared": res.counts.get("final_contents_compared", 0),
         "uploads_compared": res.counts.get("uploads_compared", 0),
+        "pipelined_overtakes_counted": res.counts.get("pipelined_overtakes_counted", 0),
         "rule": "per root: BFS over ALL interleavings of download events (every chunking into 1/2/3/rest, finish, failure where the root says +fail) with client events "
                 "(overwrite off 0..L+1 len 1..3, set size {0,2,L,L+2}, every read (off 0..L+1, len 1/2/L+2) that does not answer at once, close) "
                 "with at most K client events (root name: layer/L/K); a state = canonical tuple of all consumer fields + temp-file cells incl. holes + outstanding reads + "
@@ -788,5 +846,5 @@ MANIFEST = {
     "engine": "H",
     "technique": "explicit-state BFS over all interleavings of download chunks with client requests on the real OverwriteableFileConsumer and GeneralSFTPFile, with a reference byte array stepped alongside",
     "text": "Every interleaving of the background download (every chunking, finish, failure) with up to K client overwrites / truncations / extensions / reads / close is executed on fresh real objects (K = 3 at the consumer, 2 through GeneralSFTPFile in quick; 3-4 and 3 in thorough); states are merged on the full consumer state + temp-file cells + outstanding reads + reference. In every state all reads that can answer are issued and compared; when the download is complete the temp file, and after close the uploaded bytes, must equal the reference. Complete for the stated bounds; nothing is sampled.",
-    "note": "Temp file is an in-memory stand-in that poisons holes (what EncryptedTemporaryFile leaves unspecified). File nodes / parent directory are stubs; no SSH transport. Verdicts prefixed 'pipelined:' concern a client that sends a write/truncate while a read is unanswered. sftpd.noisy is switched off. Every transition is an implementation run (traces = transitions).",
+    "note": "Temp file is an in-memory stand-in that poisons holes (what EncryptedTemporaryFile leaves unspecified). File nodes / parent directory are stubs; no SSH transport. Reads overtaken by a later write/truncate of a pipelining client are accepted at any linearisation point and only counted; 'pipelined:' verdicts are answers matching none. sftpd.noisy is switched off. Every transition is an implementation run (traces = transitions).",
 }
